@@ -27,7 +27,7 @@ type C20Case struct {
 
 func genC20(t *rapid.T) C20Case {
 	c := C20Case{M: h.GenMode(t, "zmode")}
-	c.Kind = rapid.SampledFrom([]string{"bits", "bits", "bits", "own", "mantexp", "setmantexp", "setmantexp"}).Draw(t, "kind")
+	c.Kind = rapid.SampledFrom([]string{"bits", "bits", "bits", "own", "ownext", "mantexp", "setmantexp", "setmantexp"}).Draw(t, "kind")
 	maxW := 60
 	if h.Thorough() {
 		maxW = 1000
@@ -143,6 +143,28 @@ func genC20(t *rapid.T) C20Case {
 	case "own":
 		c.X = h.GenAny(t, "x", 400)
 		c.Exp = h.GenExp(t, "exp")
+	case "ownext":
+		// the receiver's own BitsExp slice, extended within its capacity (as the documentation allows) by 1..6 more
+		// significant words chosen here (often with leading zero digits, sometimes zero), set back with SetBitsExp:
+		// source and destination of the normalising shift are then the same array
+		c.X = h.GenFinite(t, "x", 200)
+		c.X.Hist = rapid.SampledFrom([]string{"hugecap", "hugecap", "cap"}).Draw(t, "xh")
+		if rapid.Bool().Draw(t, "xtight") {
+			c.X.P = uint(len(c.X.D))
+		} else if c.X.P > uint(len(c.X.D))+100 {
+			c.X.P = uint(len(c.X.D)) + uint(rapid.IntRange(0, 100).Draw(t, "xp"))
+		}
+		k := rapid.IntRange(1, 6).Draw(t, "k")
+		ws := h.GenWords(t, "ext", k)
+		top := rapid.SampledFrom([]uint64{1, 7, 12345, 999999999, h.Base/10 - 1, 0, h.Base - 1, 5000000000000000}).Draw(t, "exttop")
+		if rapid.IntRange(0, 3).Draw(t, "exttoprand") > 0 {
+			ws[0] = top
+		}
+		c.W = make([]uint64, k) // little endian: c.W[k-1] is the new top word
+		for i := range ws {
+			c.W[k-1-i] = ws[i]
+		}
+		c.Exp = int64(rapid.IntRange(-200, 200).Draw(t, "exp"))
 	case "mantexp":
 		c.X = h.GenAny(t, "x", 2000)
 		c.Same = rapid.IntRange(0, 3).Draw(t, "same") == 0
@@ -152,13 +174,25 @@ func genC20(t *rapid.T) C20Case {
 		c.X = h.GenAny(t, "mant", 400)
 		c.Same = rapid.IntRange(0, 3).Draw(t, "same") == 0
 		e := c.X.E
-		switch rapid.IntRange(0, 5).Draw(t, "expcls") {
+		switch rapid.IntRange(0, 6).Draw(t, "expcls") {
 		case 0:
 			c.Exp = int64(rapid.IntRange(-60, 60).Draw(t, "exp"))
 		case 1, 2:
 			c.Exp = model.MaxExp - e + int64(rapid.IntRange(-3, 3).Draw(t, "exp"))
 		case 3, 4:
 			c.Exp = model.MinExp - e + int64(rapid.IntRange(-3, 3).Draw(t, "exp"))
+		case 5:
+			// the four corners: a mantissa exponent at the very end of the range and an offset of the full width
+			// of the range, give or take one
+			if c.X.F == "f" {
+				if rapid.Bool().Draw(t, "cornerlow") {
+					c.X.E = model.MinExp + int64(rapid.IntRange(0, 1).Draw(t, "ce"))
+					c.Exp = int64(model.MaxExp) - int64(model.MinExp) + int64(rapid.IntRange(-2, 2).Draw(t, "co"))
+				} else {
+					c.X.E = model.MaxExp - int64(rapid.IntRange(0, 1).Draw(t, "ce"))
+					c.Exp = int64(model.MinExp) - int64(model.MaxExp) + int64(rapid.IntRange(-2, 2).Draw(t, "co"))
+				}
+			}
 		default:
 			c.Exp = rapid.Int64Range(-1<<34, 1<<34).Draw(t, "exp")
 			if rapid.Bool().Draw(t, "exp64") {
@@ -289,6 +323,43 @@ func checkC20(c C20Case, o *h.Obs) *h.Fail {
 		} else if got.Form != model.Zero {
 			return h.Failf("own", "SetBitsExp of an empty own slice on %v = %v", xv, got)
 		}
+	case "ownext":
+		x := c.X.Build()
+		mant, _ := x.BitsExp()
+		k := len(c.W)
+		if cap(mant) < len(mant)+k {
+			o.Label("ownext:no-capacity")
+			return nil
+		}
+		n := len(mant)
+		full := make([]uint64, n+k)
+		for i := 0; i < n; i++ {
+			full[i] = uint64(mant[i])
+		}
+		mant = mant[:n+k]
+		for i, w := range c.W {
+			mant[n+i] = decimal.Word(w)
+			full[n+i] = w
+		}
+		x.SetBitsExp(mant, c.Exp)
+		got := h.Read(x)
+		if got.Malformed != "" {
+			return h.Failf("malformed", "%v", got)
+		}
+		o.NonTrivial()
+		digits := strings.TrimLeft(h.WordsToDigits(full), "0")
+		lead := len(h.WordsToDigits(full)) - len(digits) // leading zero digits of 0.mant
+		if strings.TrimRight(digits, "0") == "" {
+			if got.Form != model.Zero {
+				return h.Failf("ownext", "all-zero extended slice: %v", got)
+			}
+			return nil
+		}
+		exact := model.MkFinite(false, strings.TrimRight(digits, "0"), c.Exp-int64(lead))
+		want, acc := model.Round(model.X{Val: exact}, uint64(c.X.P), model.Mode(c.X.M))
+		if !got.Val().Equal(want) || model.Acc(got.Acc) != acc || got.Prec != c.X.P {
+			return h.Failf("ownext", "x = %v (precision %d, %v): its own mantissa slice extended by the words %v and set back with exponent %d: got %v (%v), want %v (%v)", c.X.Val(), c.X.P, model.Mode(c.X.M), c.W, c.Exp, got.Val(), model.Acc(got.Acc), want, acc)
+		}
 	case "mantexp":
 		x := c.X.Build()
 		xv := c.X.Val()
@@ -402,7 +473,7 @@ func checkC20(c C20Case, o *h.Obs) *h.Fail {
 	return nil
 }
 
-const ruleC20 = "rapid-generated cases of four kinds. (bits) little-endian word slices of length 0..60 (quick) / 0..1000 (thorough), words < 10^19 from the pattern set, with leading zero words, low zero words, all-zero, unnormalised top word; exponents from every class incl. MaxExp/MinExp +- 40 (+ slice length), +-2^63 and neighbours, +-2^62, uniform int64; receiver precision 0, smaller than the slice's digits, or ample; six modes; receivers with previous contents. Oracle: +0.mant x 10^exp rounded once to the receiver's precision with accuracy, zero for an all-zero slice, range rule; BitsExp read back denotes the value. (own) x.SetBitsExp(x.BitsExp()) with a new exponent. (mantexp) all Decimals: x == mant x 10^exp with 0.1 <= |mant| < 1, attributes copied, specials, mant == x, SetMantExp(mant, exp) restores value and attributes. (setmantexp) any finite/special mant, offsets landing 0-3 steps inside/outside [MinExp, MaxExp], up to +-2^34, and over the whole int64 range with its ends (MaxInt64, MinInt64, +-2^62, ...): +-0 / +-Inf exactly when the exponent sum leaves the range, accuracy, attributes of mant. Non-trivial = slice needing normalisation or rounding, exponent within 40 of a range end or beyond, SetMantExp landing within 3 of a range end."
+const ruleC20 = "rapid-generated cases of four kinds. (bits) little-endian word slices of length 0..60 (quick) / 0..1000 (thorough), words < 10^19 from the pattern set, with leading zero words, low zero words, all-zero, unnormalised top word; exponents from every class incl. MaxExp/MinExp +- 40 (+ slice length), +-2^63 and neighbours, +-2^62, uniform int64; receiver precision 0, smaller than the slice's digits, or ample; six modes; receivers with previous contents. Oracle: +0.mant x 10^exp rounded once to the receiver's precision with accuracy, zero for an all-zero slice, range rule; BitsExp read back denotes the value. (own) x.SetBitsExp(x.BitsExp()) with a new exponent. (ownext) the receiver's own slice extended within its capacity by 1..6 chosen more significant words and set back. (mantexp) all Decimals: x == mant x 10^exp with 0.1 <= |mant| < 1, attributes copied, specials, mant == x, SetMantExp(mant, exp) restores value and attributes. (setmantexp) any finite/special mant, offsets landing 0-3 steps inside/outside [MinExp, MaxExp], up to +-2^34, the four corners (mantissa exponent MinExp or MaxExp with an offset of +-(2^32-1) +- 2), and over the whole int64 range with its ends (MaxInt64, MinInt64, +-2^62, ...): +-0 / +-Inf exactly when the exponent sum leaves the range, accuracy, attributes of mant. Non-trivial = slice needing normalisation or rounding, exponent within 40 of a range end or beyond, SetMantExp landing within 3 of a range end."
 
 var propC20 = &h.Prop[C20Case]{ID: "C20", Rule: ruleC20, Gen: genC20, Check: checkC20, Matchers: map[string]func(C20Case) bool{}}
 
